@@ -99,7 +99,35 @@ func judgeC05Repeat(c *Ctx, sc *Scenario, k int) *Violation {
 	return nil
 }
 
+// realDiff compares two real-directory runs (exit class, files changed and their bytes).
+func realDiff(a, b *RealResult) string {
+	if (a.Exit == 0) != (b.Exit == 0) {
+		return fmt.Sprintf("exit %d vs %d", a.Exit, b.Exit)
+	}
+	ka, kb := sortedKeys(a.Changed), sortedKeys(b.Changed)
+	if strings.Join(ka, "\n") != strings.Join(kb, "\n") {
+		return fmt.Sprintf("files rewritten %v vs %v", ka, kb)
+	}
+	for _, k := range ka {
+		if !bytes.Equal(a.Changed[k], b.Changed[k]) {
+			return k + ": " + diffSummary(a.Changed[k], b.Changed[k])
+		}
+	}
+	return ""
+}
+
 func judgeC05(c *Ctx, sc *Scenario) *Violation {
+	if sc.Real {
+		newer := sc.Clone()
+		newer.Disk.OutputsOlder = false
+		older := sc.Clone()
+		older.Disk.OutputsOlder = true
+		if d := realDiff(RunReal(c.B.FcOff, newer, c.Work), RunReal(c.B.FcOff, older, c.Work)); d != "" {
+			return &Violation{Class: "environment", Signature: "environment:file-modification-times",
+				Detail: "the shipped fc on a real directory gives another result when the pre-existing outputs are newer than the sources than when they are older: " + d}
+		}
+		return nil
+	}
 	if len(sc.Extra) > 0 {
 		var rp c05Repeat
 		if json.Unmarshal(sc.Extra, &rp) == nil && rp.Repeat > 1 {
@@ -452,7 +480,22 @@ func checkC05(tier string) {
 	routs := parallel(c, len(rjobs), func(k int) realOut {
 		i := rjobs[k].i
 		sc := plan[i].p.scenario("C05", c.Seed, i)
+		if i%3 == 0 {
+			// outputs of an earlier run present (and newer than the sources): the result must not depend on them
+			for _, o := range plan[i].p.Outputs {
+				sc.Disk.Put(filepath.Clean(o), []byte("// stale output of an earlier run\npackage main\n"), "stale")
+			}
+		}
 		rr := RunReal(c.B.FcOff, sc, c.Work)
+		if i%3 == 0 {
+			// the same directory with the old outputs older than the sources instead: same result demanded
+			older := sc.Clone()
+			older.Disk.OutputsOlder = true
+			r2 := RunReal(c.B.FcOff, older, c.Work)
+			if d := realDiff(rr, r2); d != "" {
+				return realOut{i, "MTIME:" + d}
+			}
+		}
 		c.count("shipped_binary_runs", 1)
 		if rr.Watchdog {
 			return realOut{i, "watchdog"}
@@ -489,6 +532,23 @@ func checkC05(tier string) {
 	unexplained := []string{}
 	for _, ro := range routs {
 		if ro.msg == "" {
+			continue
+		}
+		if strings.HasPrefix(ro.msg, "MTIME:") {
+			c.count("shipped_binary_mtime_dependence", 1)
+			if !seenSig["environment:file-modification-times"] {
+				seenSig["environment:file-modification-times"] = true
+				sc := plan[ro.i].p.scenario("C05", c.Seed, ro.i)
+				for _, o := range plan[ro.i].p.Outputs {
+					sc.Disk.Put(filepath.Clean(o), []byte("// stale output of an earlier run\npackage main\n"), "stale")
+				}
+				sc.Real = true
+				v := &Violation{Class: "environment", Signature: "environment:file-modification-times",
+					Detail: "the shipped fc on a real directory gives another result when the pre-existing outputs are newer than the sources than when they are older: " + strings.TrimPrefix(ro.msg, "MTIME:")}
+				if c.report(sc, v, judgeC05, nil) {
+					violations++
+				}
+			}
 			continue
 		}
 		c.count("shipped_binary_disagreements", 1)
